@@ -375,11 +375,47 @@ def r_any(early):
     return r
 
 
+def r_event_guard_decorators(states, events):
+    """Guards shared by every transition of an event are attached through the decorators of an
+    explicit Event object (`@close.cond` / `@close.unless` over a function), the transitions
+    themselves are declared bare."""
+    if not any(ats and len({(at.cond, at.unless) for at in ats}) == 1 and (ats[0].cond or ats[0].unless)
+               for (_n, ats, _on) in events):
+        return None
+    body = states_attr(states)
+    for (name, ats, on) in events:
+        uniform = len({(at.cond, at.unless) for at in ats}) == 1 and (ats[0].cond or ats[0].unless)
+        if not uniform:
+            body.append(f"{name} = " + " | ".join(t_to(at) for at in ats))
+            continue
+        bare = " | ".join(call(f"{at.src}.to", at.dst, "") for at in ats)
+        body.append(f"{name} = Event({bare})")
+        for g in ats[0].cond:
+            body.append(f"d{g} = {name}.cond(MKN({g!r}, 'd{g}'))")     # == @<name>.cond def dg1(self)
+        for g in ats[0].unless:
+            body.append(f"d{g} = {name}.unless(MKN({g!r}, 'd{g}'))")
+    return body + methods(events)
+
+
+def MKN(name, fname):
+    """A function called `fname` that reports to the environment as `name`."""
+    from ..spec import _mk_sync
+    fn = _mk_sync(name)
+    fn.__name__ = fname
+    fn.__qualname__ = f"HS.{fname}"
+    return fn
+
+
 def r_states_container(kind):
     def r(states, events):
         if kind.startswith("enum"):
             strm = kind.startswith("enum-str")
             members = ", ".join(f"{i!r}: {(f'val{v}' if strm else v)!r}" for (i, v, _a, _b) in states)
+            if kind == "enum-alias":
+                # the Enum also has an alias (a second name for the first member's value):
+                # aliases are not members, they declare no state
+                (i0, v0, _a0, _b0) = states[0]
+                members += f", 'zz_alias_of_{i0}': {v0!r}"
             ini = next(i for (i, _v, a, _b) in states if a)
             fins = [i for (i, _v, _a, b) in states if b]
             # a single final state is given as the member itself, as in the from_enum docstring
@@ -415,6 +451,8 @@ RENDERERS = [
     ("States.from_enum-str", r_states_container("enum-str")),
     ("States.from_enum-str-instance", r_states_container("enum-str-instance")),
     ("States(dict)", r_states_container("dict")),
+    ("States.from_enum-with-alias", r_states_container("enum-alias")),
+    ("Event-guard-decorators", r_event_guard_decorators),
 ]
 
 
@@ -433,7 +471,7 @@ def exec_class(lines, inherit=False, asyn=False):
     from statemachine import Event, State, StateMachine
     from statemachine.states import States
     ns = {"State": State, "StateMachine": StateMachine, "States": States, "Event": Event,
-          "enum": enum, "MK": MKA if asyn else MK}
+          "enum": enum, "MK": MKA if asyn else MK, "MKN": MKN}
     guards = ["g1 = MK('g1')", "g2 = MK('g2')", "after_transition = MK('after_transition')",
               "_prov = 'sm'"]
     src = "class R(StateMachine):\n" + "".join("    " + ln + "\n" for ln in lines + guards)
@@ -467,7 +505,8 @@ def structure(cls):
         out["states"].append((s.id, v, s.initial, s.final))
         cl = []
         for t in s.transitions:
-            conds = sorted(str(c) for c in t.cond)
+            # (guards attached through an Event's decorators are functions called d<guard>)
+            conds = sorted(str(c).replace("dg", "g") for c in t.cond)
             cl.append((tuple(sorted(str(e) for e in t.events)), t.target.id, t.internal,
                        tuple(conds)))
         out["cands"][s.id] = cl
